@@ -326,6 +326,14 @@ def window_adjust_post(c):
                   z3.BoolVal(len(c.calls('_flush_send_buf')) == 1))
 
 
+def adjust_state_ok(c):
+    """RFC 4254 5.2 / 5.3: window adjustments concern data WE send; the peer may grant window for as long as it reads,
+    i.e. also after it has sent EOF (its own sending direction closed, ours not) - refusing them then would leave our
+    buffered data unsendable for ever.  Only a channel the peer has closed (or not yet opened) takes no adjustments."""
+    st = c.old('_recv_state')
+    return z3.Or(st == z3.StringVal('open'), st == z3.StringVal('eof_pending'), st == z3.StringVal('eof'))
+
+
 def window_adjust_refused(c):
     """a refused adjust grants nothing"""
     return z3.And(c.new('_send_window') == c.old('_send_window'), z3.BoolVal(not c.calls('_flush_send_buf')))
@@ -339,10 +347,13 @@ process_window_adjust = Spec(
     requires=lambda c: z3.And(send_inv(c, new=False), water_inv(c), acct_inv(c), packet_wf(c, c.argv('packet'))),
     ensures=[('class-inv', lambda c: send_inv(c)),
              ('window-grows-only-by-adjust', window_adjust_post),
+             ('adjust-accepted-only-while-the-peer-still-reads(open,eof_pending,eof)', adjust_state_ok),
              # new window may let buffered data out: the writer is resumed if that drained the buffer far enough
              ('writer-resumed-at-or-below-low-water', lambda c: z3.Implies(
                  c.new('_send_buf_len') <= c.new('_send_low_water'), z3.Not(c.new('_send_paused'))))],
-    raises={'ProtocolError': window_adjust_refused, 'PacketDecodeError': window_adjust_refused,
+    # ProtocolError only for a channel state that takes no adjustments: a peer that sent EOF but keeps reading is served
+    raises={'ProtocolError': lambda c: z3.And(window_adjust_refused(c), z3.Not(adjust_state_ok(c))),
+            'PacketDecodeError': window_adjust_refused,
             'AssertionError': lambda c: c.is_none(c.oldv('_session'))})
 
 
